@@ -60,6 +60,10 @@ func (c *Chan[T]) Len() int {
 	}
 	return len(c.c.buf)
 }
+
+// Closed reports whether the channel has been closed (observation only, no scheduling point).
+func (c *Chan[T]) Closed() bool { return c != nil && c.c.closed }
+
 func (c *Chan[T]) Cap() int {
 	if c == nil {
 		return 0
